@@ -23,6 +23,8 @@ mod c03_terminal;
 #[cfg(any(kani, test))]
 mod c01_prefilter;
 #[cfg(any(kani, test))]
+mod c03_single;
+#[cfg(any(kani, test))]
 pub mod c04_ops;
 #[cfg(any(kani, test))]
 mod c02_cut;
